@@ -18,6 +18,7 @@ type monC07 struct {
 	Plain    [2][][]byte // plaintexts delivered (for queued/required-encryption texts)
 	Overflow bool
 	Pending  int // principal whose start trigger has not fired yet (-1: none)
+	Lost     bool // B has lost the session (client restarted): A is still encrypted, B starts from scratch
 }
 
 func verifParsePol(s string) policies {
@@ -122,6 +123,13 @@ func verifC07Sys(id string, seed int64) *verifSys {
 				w.push(0, r.Out)
 				w.deliverAll(10, nil)
 				w.P[1].End()
+			} else if start == "lost" {
+				// B's client was restarted: same long-term key, nothing else left. A still believes in the session.
+				old := w.P[1]
+				w.P[1] = verifNewPrincipal(verifConvCfg{Name: "B", Seed: seed + 500, Policies: old.C.Policies, Key: verifKey(seed, "B")})
+				w.P[1].C.ourInstanceTag = old.C.ourInstanceTag // clients keep their instance tag across restarts
+				m.Lost = true
+				m.OldSSID = w.P[0].C.ssid
 			} else {
 				m.WasEnc = true
 				m.OldSSID = w.P[0].C.ssid
@@ -220,6 +228,8 @@ func verifC07Sys(id string, seed int64) *verifSys {
 			if !a.IsEncrypted() || !b.IsEncrypted() {
 				return []verifFinding{{"C07:refresh-ignored-and-session-lost", "no exchange started and the old session is gone"}}
 			}
+			// the ignore window has expired (the clock was advanced after the first exchange): the trigger must work
+			return []verifFinding{{"C07:trigger-ignored:" + trig, fmt.Sprintf("the trigger (%s by %s) started no key exchange although a session existed and the query-ignore window had expired (%s)", trig, who, id)}}
 		}
 		sa, sb := verifAuthStateName(a), verifAuthStateName(b)
 		if !a.IsEncrypted() || !b.IsEncrypted() || (sa != "none" && sa != "NONE") || (sb != "none" && sb != "NONE") {
@@ -229,7 +239,7 @@ func verifC07Sys(id string, seed int64) *verifSys {
 		if a.ssid != b.ssid {
 			return []verifFinding{{"C07:different-sessions", fmt.Sprintf("both encrypted but SSIDs differ %x / %x", a.ssid, b.ssid)}}
 		}
-		if m.WasEnc && m.Commits > 0 && a.ssid == m.OldSSID {
+		if (m.WasEnc || m.Lost) && m.Commits > 0 && a.ssid == m.OldSSID {
 			return []verifFinding{{"C07:refresh-not-new", "refresh exchange ran but the session is the old one"}}
 		}
 		if s := verifProbe(w); s != "" {
@@ -274,10 +284,10 @@ func init() {
 		Level: "model_checking",
 		Build: verifC07Sys,
 		Run: func(r *verifReport) {
-			r.Rule = "for each policy pair sharing a version × start state (plaintext, encrypted=refresh, one side finished) × trigger (query, whitespace tag, error-triggered restart, Send under required encryption) × initiator (A, B, both before any delivery): every interleaving of deliveries on two FIFO queues until quiescence (complete search, horizon 60 deliveries); oracle at quiescence: both encrypted, same SSID, new session on refresh, probe text readable both ways"
+			r.Rule = "for each policy pair sharing a version × start state (plaintext, encrypted=refresh, one side finished, both ended a moment ago, one side restarted and lost the session while the other still believes in it) × trigger (query, whitespace tag, error-triggered restart, Send under required encryption) × initiator (A, B, both before any delivery): every interleaving of deliveries on two FIFO queues until quiescence (complete search, horizon 60 deliveries); oracle at quiescence: both encrypted, same SSID, new session on refresh, probe text readable both ways"
 			r.Assumptions = []string{"reliable FIFO network, no loss", "refresh scenarios start with the 60 s query-ignore window expired (virtual clock ticked)"}
 			pols := []string{"3-3", "2-2", "23-23", "23-2", "23-3", "2-23", "3-23"}
-			starts := []string{"plain", "enc", "fin", "ended"}
+			starts := []string{"plain", "enc", "fin", "ended", "lost"}
 			trigs := []string{"query", "ws", "err", "req"}
 			whos := []string{"A", "B", "A+B", "B+A"}
 			for _, p := range pols {
